@@ -249,8 +249,13 @@ class CircuitTemplate(AbstractBaseTemplate):
 
         if edges:
             edges = update_edges(self.edges, edges)
-        else:
+        elif in_place:
             edges = self.edges
+        else:
+            # the new instance gets its own edge attribute dictionaries, such that later updates of its edge variables
+            # do not alter the edges of this template
+            edges = [(source, target, template, dict(attr) if attr else attr)
+                     for source, target, template, attr in self.edges]
 
         # either create new instance with updates or store updates on current template instance
         if not in_place:
